@@ -128,7 +128,16 @@ type env struct {
 const groupName = "c20"
 
 func newEnv() (*env, error) {
-	root, err := os.MkdirTemp("", "c20-")
+	// a memory file system when there is one: every history creates, reads
+	// and deletes its recording files
+	base := ""
+	if fi, err := os.Stat("/dev/shm"); err == nil && fi.IsDir() {
+		base = "/dev/shm"
+	}
+	root, err := os.MkdirTemp(base, "c20-")
+	if err != nil && base != "" {
+		root, err = os.MkdirTemp("", "c20-")
+	}
 	if err != nil {
 		return nil, err
 	}
